@@ -45,7 +45,7 @@ struct Finding {
 }
 
 fn ids(vs: &[Val]) -> Vec<u64> {
-  vs.iter().map(|v| v.id).collect()
+  vs.iter().map(|v| v.wid()).collect()
 }
 
 fn run(fl: Flavour, cap: usize, steps: usize, rng: &mut Rng) -> (Vec<Finding>, Vec<String>, bool) {
@@ -99,14 +99,14 @@ fn run(fl: Flavour, cap: usize, steps: usize, rng: &mut Rng) -> (Vec<Finding>, V
             guarded(d, || block_on(h.send(v))).map_err(|e| (format!("{:?}", e), None))
           }
           (TxH::S(h), false) => h.try_send(v).map_err(|e| match e {
-            TrySendError::Full(v) => ("Full".into(), Some(v.id)),
-            TrySendError::Closed(v) => ("Closed".into(), Some(v.id)),
-            TrySendError::Sent(v) => ("Sent".into(), Some(v.id)),
+            TrySendError::Full(v) => ("Full".into(), Some(v.wid())),
+            TrySendError::Closed(v) => ("Closed".into(), Some(v.wid())),
+            TrySendError::Sent(v) => ("Sent".into(), Some(v.wid())),
           }),
           (TxH::A(h), false) => h.try_send(v).map_err(|e| match e {
-            TrySendError::Full(v) => ("Full".into(), Some(v.id)),
-            TrySendError::Closed(v) => ("Closed".into(), Some(v.id)),
-            TrySendError::Sent(v) => ("Sent".into(), Some(v.id)),
+            TrySendError::Full(v) => ("Full".into(), Some(v.wid())),
+            TrySendError::Closed(v) => ("Closed".into(), Some(v.wid())),
+            TrySendError::Sent(v) => ("Sent".into(), Some(v.wid())),
           }),
         };
         trace.push(format!("tx{}.{}({}) -> {:?}   [model len {}]", i, if blocking { "send" } else { "try_send" }, id & 0xffff_ffff, r, q.len()));
@@ -148,14 +148,14 @@ fn run(fl: Flavour, cap: usize, steps: usize, rng: &mut Rng) -> (Vec<Finding>, V
         let r: Result<u64, String> = match (rxs[i].h.as_mut().unwrap(), blocking) {
           (RxH::S(h), true) => {
             let d = format!("C02|{}|blocking-recv-never-returns-although-values-queued|sequential|recv with {} values queued; trace tail: {:?}", fl.name(), q.len(), trace.iter().rev().take(6).collect::<Vec<_>>());
-            guarded(d, || h.recv()).map(|v| v.id).map_err(|e| format!("{:?}", e))
+            guarded(d, || h.recv()).map(|v| v.wid()).map_err(|e| format!("{:?}", e))
           }
           (RxH::A(h), true) => {
             let d = format!("C02|{}|async-recv-never-completes-although-values-queued|sequential|recv with {} values queued; trace tail: {:?}", fl.name(), q.len(), trace.iter().rev().take(6).collect::<Vec<_>>());
-            guarded(d, || block_on(h.recv())).map(|v| v.id).map_err(|e| format!("{:?}", e))
+            guarded(d, || block_on(h.recv())).map(|v| v.wid()).map_err(|e| format!("{:?}", e))
           }
-          (RxH::S(h), false) => h.try_recv().map(|v| v.id).map_err(|e| format!("{:?}", e)),
-          (RxH::A(h), false) => h.try_recv().map(|v| v.id).map_err(|e| format!("{:?}", e)),
+          (RxH::S(h), false) => h.try_recv().map(|v| v.wid()).map_err(|e| format!("{:?}", e)),
+          (RxH::A(h), false) => h.try_recv().map(|v| v.wid()).map_err(|e| format!("{:?}", e)),
         };
         trace.push(format!("rx{}.{} -> {:?}   [model len {}]", i, if blocking { "recv" } else { "try_recv" }, r.as_ref().map(|v| v & 0xffff_ffff), q.len()));
         if rxc {
